@@ -107,6 +107,29 @@ pub struct QueueRec {
 
 pub const PAGE: usize = 4096;
 
+/// The misbehaving device of C07, layered over the reference device: it perturbs the two funnels
+/// every personality uses (`chain_write`, `dev_complete`).
+pub struct AdvState {
+    pub rng: rand::rngs::SmallRng,
+    /// probability that a completion is perturbed
+    pub p: f64,
+    /// overwrite driver-owned areas (descriptor table, available ring): 0 never, 1 dry run (same
+    /// random draws, no write - the reference run of the differential check), 2 for real
+    pub scribble: u8,
+    pub counts: BTreeMap<&'static str, usize>,
+}
+
+thread_local! {
+    /// (seed, p, scribble) for the next worlds created on this thread
+    pub static ADV_MODE: std::cell::Cell<Option<(u64, f64, u8)>> = const { std::cell::Cell::new(None) };
+}
+thread_local! {
+    pub static ADV_DLINES: RefCell<Vec<String>> = const { RefCell::new(Vec::new()) };
+}
+pub fn adv_active() -> bool {
+    ADV_MODE.with(|a| a.get().is_some())
+}
+
 pub struct World {
     /// all events in program order: (stream, queue index, json line); stream 0 = queue-level,
     /// 1 = driver/transport/platform-level
@@ -132,6 +155,7 @@ pub struct World {
     pub mmio_map: Vec<(u64, usize, usize)>, // (pa, size, window id) for mmio_phys_to_virt
     /// queue-level events are not recorded (quiescent-to-quiescent fast-forward)
     pub muted: bool,
+    pub adv: Option<AdvState>,
 }
 
 impl World {
@@ -154,6 +178,12 @@ impl World {
             dma_leaked_host: Vec::new(),
             mmio_map: Vec::new(),
             muted: false,
+            adv: ADV_MODE.with(|a| a.get()).map(|(seed, p, scribble)| AdvState {
+                rng: <rand::rngs::SmallRng as rand::SeedableRng>::seed_from_u64(seed),
+                p,
+                scribble,
+                counts: BTreeMap::new(),
+            }),
         }
     }
 
@@ -174,6 +204,11 @@ impl World {
     }
     /// driver-level events plus the queue-level events whose name is in `also`
     pub fn d_lines(&self, also: &[&str]) -> Vec<String> {
+        if adv_active() {
+            // the adversarial family (C07) looks at the unfiltered driver-level stream
+            let all: Vec<String> = self.trace.iter().filter(|(k, _, _)| *k == 1).map(|(_, _, l)| l.clone()).collect();
+            ADV_DLINES.with(|d| *d.borrow_mut() = all);
+        }
         self.trace
             .iter()
             .filter(|(k, _, l)| *k == 1 || also.iter().any(|n| l.contains(&format!("\"e\":\"{}\"", n))))
@@ -238,6 +273,24 @@ impl World {
     }
 
     pub fn dev_read(&mut self, q: u16, pa: u64, len: usize) -> Option<Vec<u8>> {
+        // after the device scribbled over driver-owned areas it keeps acting on what the driver
+        // wrote (the recorder's copy), so that the run stays comparable with the unscribbled one
+        if let Some(r) = self.queues.get(&q) {
+            if r.scribbled {
+                let end = pa + len as u64;
+                if pa >= r.desc_pa && end <= r.desc_pa + 16 * r.n as u64 {
+                    let o = (pa - r.desc_pa) as usize;
+                    return Some(r.sh_desc[o..o + len].to_vec());
+                }
+                if pa >= r.avail_pa && end <= r.avail_pa + 6 + 2 * r.n as u64 {
+                    let o = (pa - r.avail_pa) as usize;
+                    return Some(r.sh_avail[o..o + len].to_vec());
+                }
+            }
+        }
+        self.mem_read(q, pa, len)
+    }
+    pub fn mem_read(&mut self, q: u16, pa: u64, len: usize) -> Option<Vec<u8>> {
         match self.translate(pa, len, false) {
             Some(p) => {
                 let mut v = vec![0u8; len];
@@ -313,7 +366,7 @@ impl World {
                 let i = index as usize;
                 if i >= n {
                     self.qev(q, json!({"e":"UnhookedStore","why":"desc index out of range","i":index}));
-                } else if let Some(b) = self.dev_read(q, rec.desc_pa + 16 * i as u64, 16) {
+                } else if let Some(b) = self.mem_read(q, rec.desc_pa + 16 * i as u64, 16) {
                     rec.sh_desc[16 * i..16 * i + 16].copy_from_slice(&b);
                     if rec.in_new {
                         // link stores of VirtQueue::new happen before the queue is handed to anybody;
@@ -328,7 +381,7 @@ impl World {
                 let i = index as usize;
                 if i >= n {
                     self.qev(q, json!({"e":"UnhookedStore","why":"ring slot out of range","i":index}));
-                } else if let Some(b) = self.dev_read(q, rec.avail_pa + 4 + 2 * i as u64, 2) {
+                } else if let Some(b) = self.mem_read(q, rec.avail_pa + 4 + 2 * i as u64, 2) {
                     rec.sh_avail[4 + 2 * i..6 + 2 * i].copy_from_slice(&b);
                     self.qev(q, json!({"e":"Store","area":"ring","i":i,"v":u16::from_le_bytes([b[0],b[1]])}));
                 }
@@ -339,7 +392,7 @@ impl World {
                     "idx" => 2,
                     _ => 4 + 2 * n,
                 };
-                if let Some(b) = self.dev_read(q, rec.avail_pa + off as u64, 2) {
+                if let Some(b) = self.mem_read(q, rec.avail_pa + off as u64, 2) {
                     rec.sh_avail[off..off + 2].copy_from_slice(&b);
                     self.qev(q, json!({"e":"Store","area":area,"v":u16::from_le_bytes([b[0],b[1]])}));
                 }
@@ -594,6 +647,39 @@ impl World {
     }
     /// Scatter `data` over the device-writable part; returns bytes written.
     pub fn chain_write(&mut self, q: u16, c: &Chain, data: &[u8]) -> usize {
+        // C07: arbitrary response bytes
+        let hit = self.adv.as_mut().map(|a| rand::Rng::gen_bool(&mut a.rng, a.p)).unwrap_or(false);
+        let garbled: Option<Vec<u8>> = match self.adv.as_mut() {
+            Some(a) if hit => {
+                use rand::Rng;
+                let wl = Self::chain_writable_len(c);
+                let n = match a.rng.gen_range(0..4) {
+                    0 => data.len(),
+                    1 => wl,
+                    2 => a.rng.gen_range(0..=wl),
+                    _ => data.len().saturating_sub(a.rng.gen_range(0..=8usize)),
+                };
+                let mut v = data.to_vec();
+                v.resize(n, 0);
+                match a.rng.gen_range(0..3) {
+                    0 => a.rng.fill(&mut v[..]),
+                    1 => {
+                        // flip a few bytes only (near-valid responses reach deeper)
+                        for _ in 0..3 {
+                            if !v.is_empty() {
+                                let k = a.rng.gen_range(0..v.len());
+                                v[k] = [0u8, 1, 0x7f, 0x80, 0xff][a.rng.gen_range(0..5)];
+                            }
+                        }
+                    }
+                    _ => v.iter_mut().for_each(|b| *b = 0xff),
+                }
+                *a.counts.entry("garbled_response").or_default() += 1;
+                Some(v)
+            }
+            _ => None,
+        };
+        let data: &[u8] = garbled.as_deref().unwrap_or(data);
         let mut off = 0;
         for e in c.elems.iter().filter(|e| e.w) {
             if off >= data.len() {
@@ -622,6 +708,155 @@ impl World {
     }
 
     pub fn dev_complete(&mut self, q: u16, head: u16, len: u32, wd: Option<String>) {
+        use rand::Rng;
+        let roll = self.adv.as_mut().and_then(|a| if a.rng.gen_bool(a.p) { Some(a.rng.gen_range(0..100u32)) } else { None });
+        let Some(roll) = roll else { return self.dev_complete_legit(q, head, len, wd) };
+        let (n, used_idx, scribble_ok) = match self.queues.get(&q) {
+            Some(r) => (r.n, r.used_idx, self.adv.as_ref().unwrap().scribble > 0),
+            None => return,
+        };
+        // whatever happens, the device is done with this chain
+        if let Some(r) = self.queues.get_mut(&q) {
+            if let Some(p) = r.taken.iter().position(|c| c.head == head) {
+                r.taken.remove(p);
+            }
+        }
+        let a = self.adv.as_mut().unwrap();
+        let count = |a: &mut AdvState, k: &'static str| *a.counts.entry(k).or_default() += 1;
+        match roll {
+            0..=24 => {
+                // arbitrary used length
+                let l = match a.rng.gen_range(0..6) {
+                    0 => 0,
+                    1 => 1,
+                    2 => len.wrapping_add(1),
+                    3 => u32::MAX,
+                    4 => 0x8000_0000,
+                    _ => a.rng.r#gen(),
+                };
+                count(a, "bogus_len");
+                self.dev_complete_legit(q, head, l, wd);
+            }
+            25..=44 => {
+                // an identifier the driver did not expect here: another chain, a never-issued
+                // descriptor, out of range, garbage in the upper half
+                let id: u32 = match a.rng.gen_range(0..5) {
+                    0 => (head as u32 + 1) % n as u32,
+                    1 => a.rng.gen_range(0..n as u32),
+                    2 => n as u32 + a.rng.gen_range(0..4),
+                    3 => head as u32 | 0x1_0000 << a.rng.gen_range(0..15),
+                    _ => a.rng.r#gen(),
+                };
+                let l = if a.rng.gen_bool(0.5) { len } else { a.rng.r#gen() };
+                count(a, "bogus_id");
+                self.dev_raw_used_elem(q, used_idx as usize & (n - 1), id, l);
+                self.dev_raw_used_idx(q, used_idx.wrapping_add(1));
+            }
+            45..=56 => {
+                // the same chain reported twice
+                count(a, "duplicate");
+                self.dev_complete_legit(q, head, len, wd);
+                self.dev_raw_used_elem(q, used_idx.wrapping_add(1) as usize & (n - 1), head as u32, len);
+                self.dev_raw_used_idx(q, used_idx.wrapping_add(2));
+            }
+            57..=68 => {
+                // index jump (forwards by more than one, or backwards)
+                let k: u16 = match a.rng.gen_range(0..4) {
+                    0 => 2,
+                    1 => n as u16 + 1,
+                    2 => 0xffff,
+                    _ => a.rng.r#gen(),
+                };
+                count(a, "index_jump");
+                self.dev_complete_legit(q, head, len, wd);
+                self.dev_raw_used_idx(q, used_idx.wrapping_add(1).wrapping_add(k));
+            }
+            69..=78 => {
+                // never completed
+                count(a, "dropped");
+            }
+            _ => {
+                if scribble_ok {
+                    count(a, "scribble");
+                    self.dev_scribble(q);
+                }
+                self.dev_complete_legit(q, head, len, wd);
+            }
+        }
+    }
+
+    /// Pointer to queue memory regardless of its DMA direction (a misbehaving device can write
+    /// where it must not).
+    fn any_ptr(&self, pa: u64, len: usize) -> Option<*mut u8> {
+        let (_, r) = self.dma.range(..=pa).next_back()?;
+        if pa + len as u64 <= r.pa + (r.pages * PAGE) as u64 {
+            Some(unsafe { r.host.add((pa - r.pa) as usize) })
+        } else {
+            None
+        }
+    }
+
+    /// C07: the device overwrites parts of the descriptor table and the available ring.
+    pub fn dev_scribble(&mut self, q: u16) {
+        use rand::Rng;
+        let Some(mut rec) = self.queues.remove(&q) else { return };
+        let dry = self.adv.as_ref().map(|a| a.scribble < 2).unwrap_or(true);
+        if !rec.scribbled && !dry {
+            // everything the driver wrote so far is in the recorder's copy
+            self.full_diff(&mut rec);
+            rec.scribbled = true;
+        }
+        let mut adv = self.adv.take().expect("adversary");
+        let a = &mut adv;
+        let n = rec.n;
+        let mut what = vec![];
+        for _ in 0..a.rng.gen_range(1..=4) {
+            let (pa, bytes): (u64, Vec<u8>) = match a.rng.gen_range(0..5) {
+                0 | 1 => {
+                    let i = a.rng.gen_range(0..n);
+                    let mut b = vec![0u8; 16];
+                    match a.rng.gen_range(0..3) {
+                        0 => a.rng.fill(&mut b[..]),
+                        1 => {
+                            // plausible descriptor: valid-looking flags and next
+                            b[8..12].copy_from_slice(&a.rng.gen_range(0..64u32).to_le_bytes());
+                            b[12..14].copy_from_slice(&(a.rng.gen_range(0..8u16)).to_le_bytes());
+                            b[14..16].copy_from_slice(&(a.rng.gen_range(0..n as u16 + 2)).to_le_bytes());
+                        }
+                        _ => b.iter_mut().for_each(|x| *x = 0xff),
+                    }
+                    what.push(format!("desc{i}"));
+                    (rec.desc_pa + 16 * i as u64, b)
+                }
+                2 => {
+                    let i = a.rng.gen_range(0..n);
+                    what.push(format!("ring{i}"));
+                    (rec.avail_pa + 4 + 2 * i as u64, a.rng.r#gen::<u16>().to_le_bytes().to_vec())
+                }
+                3 => {
+                    what.push("idx".into());
+                    (rec.avail_pa + 2, a.rng.r#gen::<u16>().to_le_bytes().to_vec())
+                }
+                _ => {
+                    what.push("flags/used_event".into());
+                    let off = if a.rng.gen_bool(0.5) { 0 } else { 4 + 2 * n as u64 };
+                    (rec.avail_pa + off, a.rng.r#gen::<u16>().to_le_bytes().to_vec())
+                }
+            };
+            if !dry {
+                if let Some(p) = self.any_ptr(pa, bytes.len()) {
+                    unsafe { std::ptr::copy_nonoverlapping(bytes.as_ptr(), p, bytes.len()) };
+                }
+            }
+        }
+        self.adv = Some(adv);
+        self.queues.insert(q, rec);
+        if !dry {
+            self.qev(q, json!({"e":"DevScribble","what":what}));
+        }
+    }
+
+    pub fn dev_complete_legit(&mut self, q: u16, head: u16, len: u32, wd: Option<String>) {
         let (n, used_pa, used_idx) = match self.queues.get(&q) {
             Some(r) => (r.n, r.used_pa, r.used_idx),
             None => return,
@@ -631,7 +866,7 @@ impl World {
         e[0..4].copy_from_slice(&(head as u32).to_le_bytes());
         e[4..8].copy_from_slice(&len.to_le_bytes());
         self.dev_write(q, used_pa + 4 + 8 * slot as u64, &e);
-        self.qev(q, json!({"e":"DevElem","s":slot,"id":head,"len":len}));
+        self.qev(q, json!({"e":"DevElem","s":slot,"id":head,"len":hex(len as u64)}));
         let v = used_idx.wrapping_add(1);
         self.dev_write(q, used_pa + 2, &v.to_le_bytes());
         self.qev(q, json!({"e":"DevIdx","v":v,"id":head,"wd":wd.unwrap_or_default()}));
@@ -714,7 +949,8 @@ unsafe impl Hal for LedgerHal {
         with_world(|w| {
             w.dma_calls += 1;
             let seq = w.dma_calls;
-            if w.fail_dma_at == Some(seq) || pages == 0 {
+            // (a platform refuses absurd requests: more than 64 MiB is "out of memory" here)
+            if w.fail_dma_at == Some(seq) || pages == 0 || pages > 16384 {
                 w.dev(json!({"e":"DmaAlloc","seq":seq,"pages":pages,"dir":Dir::from(direction).name(),
                              "ap":access_platform,"failed":true}));
                 return (0, NonNull::dangling());
